@@ -134,6 +134,20 @@ fn check_layout(out: &mut Out, x: &[Vec<f64>], idxs: &[usize], f32m: bool, famil
     }
 }
 
+/// A category code that does not occur in column `c` of `x`: above the largest fitted code, or (half of the time,
+/// when there is one) in a GAP between / below the fitted codes — an encoder that only range-checks the code, or
+/// looks it up in a dense table with a default entry, accepts those silently.
+fn unseen_code(rng: &mut Rng, x: &[Vec<f64>], c: usize) -> f64 {
+    let fitted: Vec<i64> = x.iter().map(|r| r[c] as i64).collect();
+    let max = *fitted.iter().max().unwrap();
+    let gaps: Vec<i64> = (0..max).filter(|v| !fitted.contains(v)).collect();
+    if !gaps.is_empty() && rng.bool() {
+        *rng.pick(&gaps) as f64
+    } else {
+        (max + 1 + rng.below(50) as i64) as f64
+    }
+}
+
 fn check_errors(out: &mut Out, rng: &mut Rng) {
     // unseen value at transform time -> Err ; non-integer value in a categorical column at fit time -> Err
     let n = rng.usize_in(2, 12);
@@ -143,13 +157,14 @@ fn check_errors(out: &mut Out, rng: &mut Rng) {
         idxs.push(rng.below(p));
     }
     rng.shuffle(&mut idxs);
-    let x = gen_matrix(rng, n, p, &idxs, 3, false);
+    let arbitrary = rng.bool();
+    let x = gen_matrix(rng, n, p, &idxs, 3, arbitrary);
     let f32m = rng.chance(0.3);
     // unseen
     let mut x2 = x.clone();
     let r = rng.below(n);
     let c = *rng.pick(&idxs);
-    x2[r][c] = 9.0 + rng.below(50) as f64; // palette codes are < 8
+    x2[r][c] = unseen_code(rng, &x, c);
     let mut kd: Vec<f64> = x2.iter().flatten().cloned().collect();
     kd.push(c as f64);
     out.eval(hash_f64s(&kd), true);
@@ -362,7 +377,7 @@ fn main() {
         }
     }
     // ---- correspondence: whole fit + transform ----
-    let ncorr = if a.thorough { 600 } else { 120 };
+    let ncorr = if a.thorough { 2000 } else { 400 };
     for i in 0..ncorr {
         let n = rng.usize_in(1, 10);
         let p = rng.usize_in(1, 7);
@@ -373,7 +388,7 @@ fn main() {
         let mode = rng.below(6);
         if mode == 0 && !idxs.is_empty() {
             let (r, c) = (rng.below(n), *rng.pick(&idxs));
-            x2[r][c] = 77.0; // unseen
+            x2[r][c] = unseen_code(&mut rng, &x, c);
         }
         let mut xf = x.clone();
         if mode == 1 && !idxs.is_empty() {
@@ -411,7 +426,7 @@ fn main() {
         }
     }
     // ---- search: random, 1<=n<=40, 1<=p<=10, 1..6 categories, arbitrary codes ----
-    let nrand = if a.thorough { 20000 } else { 1500 };
+    let nrand = if a.thorough { 60000 } else { 8000 };
     for i in 0..nrand {
         let n = rng.usize_in(1, 40);
         let p = rng.usize_in(1, 10);
@@ -426,7 +441,7 @@ fn main() {
         let x = gen_matrix(&mut rng, n, p, &idxs, 6, i % 3 == 0);
         check_layout(&mut out, &x, &idxs, i % 5 == 4, "random");
     }
-    for _ in 0..(if a.thorough { 2000 } else { 200 }) {
+    for _ in 0..(if a.thorough { 20000 } else { 3000 }) {
         check_errors(&mut out, &mut rng);
         check_mapper(&mut out, &mut rng, false);
     }
